@@ -181,6 +181,8 @@ def run(ctx, V):
                     lon = (q + frac) * 0.5 * math.pi
                     for turns in (0, 1, -2):
                         l1_cases.append((planet, q, lat, lon + turns * 2 * math.pi))
+    if replay.get("route") == "level1":
+        l1_cases.insert(0, (bool(replay["planet"]), int(replay["q"]), replay["lat"], replay["lon"]))
     for planet, q, lat, lon in l1_cases:
         t = T.toast_tile_for_point(1, lat, lon, systems[planet])
         terms.append("(KL1 %s %d (mkPos %d %d %d))" % (g_bool(planet), q, t.pos.n, t.pos.x, t.pos.y))
